@@ -79,7 +79,7 @@ def run(ctx):
                'flag-1 points bias the plant by 0.5 e^2/ln10 dex: recovery is compared with the reference fitter on the same data, and the reference with the analytic bound')
     ctx.require_events('text-row:objects-with-other-package-in-between', 'pipeline:run', 'recovered:rank1', 'text-row:checked', 'FitInfo.keep:post', 'Filter.rebin:post', 'FitInfo.filter_table:post',
                        'Source.from_ascii:post', 'Extinction.get_av:post')
-    ctx.require_regimes('mode:2d', 'mode:3d', 'style:v1', 'style:v2', 'exact-plant', 'noisy-plant', 'av0:at-bound', 'av0:interior', 'sources-per-file>1', 'plant:with-unused-or-limit-band', '3d:distance-range-not-in-kpc')
+    ctx.require_regimes('mode:2d', 'mode:3d', 'style:v1', 'style:v2', 'exact-plant', 'noisy-plant', 'av0:at-bound', 'av0:interior', 'sources-per-file>1', 'plant:with-unused-or-limit-band', '3d:distance-range-not-in-kpc', 'package:model-without-flux-in-a-band')
     n_pipe = 10 if ctx.quick else 200
     ip = 0
     tries = 0
@@ -103,6 +103,22 @@ def run(ctx):
         os.mkdir(md)
         order = list(rng.permutation(n_m))
         step = float(rng.choice([0.05, 0.1]))
+        nf = int(rng.integers(2, 5))
+        filters = []
+        fw_first = None
+        for jf in range(nf):
+            fw, resp, central, kind = convcheck.make_filter_arrays(rng, truth.wav, kind='inside')
+            if jf == 0:
+                fw_first = (float(np.min(fw)), float(np.max(fw)))
+            filters.append(convcheck.build_filter('E%d' % jf, fw, resp, central, descending_nu=bool(rng.random() < 0.5)))
+        # one model that is never planted has no flux at all in the range of the first filter (e.g. an embedded source without
+        # optical flux): its fit is undefined there and it must not outrank the planted model
+        zero_model = None
+        if n_m >= 3 and tries % 3 == 0:
+            zero_model = int(rng.integers(n_m))
+            zmask = (truth.wav >= fw_first[0] / 2.5) & (truth.wav <= fw_first[1] * 2.5)
+            truth.flux[zero_model][:, zmask] = 0.0
+            truth.err[zero_model][:, zmask] = 0.0
         if style == 'v1':
             pkg.build_v1(md, truth, table_order=order, aperture_dependent=(mode == '3d'), logd_step=step,
                          desc=rng.random(n_m) < 0.5, gz=rng.random(n_m) < 0.2, fmt='D')
@@ -111,11 +127,6 @@ def run(ctx):
             pkg.build_v2(md, truth, aperture_dependent=(mode == '3d'), logd_step=step, descending_wav=bool(rng.random() < 0.5),
                          unit=str(rng.choice(['mJy', 'mJy', 'Jy'])))
             os.rmdir(os.path.join(md, 'convolved'))
-        nf = int(rng.integers(2, 5))
-        filters = []
-        for jf in range(nf):
-            fw, resp, central, kind = convcheck.make_filter_arrays(rng, truth.wav, kind='inside')
-            filters.append(convcheck.build_filter('E%d' % jf, fw, resp, central, descending_nu=bool(rng.random() < 0.5)))
         cen = np.array([f.central_wavelength.to(u.micron).value for f in filters])
         lw, lc = gen.make_law_arrays(rng, n=15, lo=0.05, hi=3000.0)
         law = gen.build_law(lw, lc)
@@ -124,9 +135,12 @@ def run(ctx):
             ctx.rmdir(d)
             continue
         conv = np.stack([convcheck.reference_convolution(truth, f)[0] for f in filters], axis=2)     # [m, a, f]
-        if not np.all(conv > 0):
+        others = [m_ for m_ in range(n_m) if m_ != zero_model]
+        if not np.all(conv[others] > 0) or (zero_model is not None and np.any(conv[zero_model, :, 0] != 0)):
             ctx.rmdir(d)
             continue
+        if zero_model is not None:
+            ctx.regime('package:model-without-flux-in-a-band')
         c09.CUR.update(params={'cols': list(params), 'rows': {names[m]: {c: float(params[c][m]) for c in params} for m in range(n_m)}}, perm=order)
         wit0 = dict(mode=mode, style=style, n_models=n_m, n_filters=nf, table_order=order)
         try:
@@ -140,7 +154,8 @@ def run(ctx):
         if mode == '2d':
             theta = np.ones(nf)
             dr = np.array([1.0, 2.0])
-            logm = np.log10(conv[:, 0, :])
+            with np.errstate(divide='ignore'):
+                logm = np.log10(conv[:, 0, :])
             dist = None
         else:
             dmin = float(gen.loguniform(rng, 0.2, 5))
@@ -151,11 +166,12 @@ def run(ctx):
             L = np.log10(dr[1]) - np.log10(dr[0])
             nref = 1 if dr[0] == dr[1] else int(np.ceil(1 + L / step - 1e-12))
             dist = np.array([dr[0]]) if nref == 1 else 10 ** np.linspace(np.log10(dr[0]), np.log10(dr[1]), nref)
-            logm = fitcheck.grid_logm(conv, truth.apertures, theta, dist)
+            with np.errstate(divide='ignore'):
+                logm = fitcheck.grid_logm(conv, truth.apertures, theta, dist)
         # several planted sources per data file: the file is fitted by ONE fitter, source after source
         plants = []
         for isrc in range(int(rng.integers(1, 5))):
-            m0 = int(rng.integers(n_m))
+            m0 = int(rng.choice(others))
             a0 = float(rng.choice([lo, hi, rng.uniform(lo, hi), rng.uniform(lo, hi)]))
             if mode == '2d':
                 s0 = float(rng.uniform(-1.5, 1.5))
@@ -184,11 +200,20 @@ def run(ctx):
                     valid[jx], flux[jx], err[jx] = 3, 10.0 ** (pred[jx] + 1.0), 0.9
                 ctx.regime('plant:with-unused-or-limit-band')
             logf, sig, w = O.transform(valid, flux, err)
+            # (the model without flux in a band has no defined fit: it takes no part in the reference and ranks last there)
+            def spread(x_, fill):
+                out_ = np.full((n_m,) + np.shape(x_)[1:], fill, dtype=np.asarray(x_).dtype if np.asarray(x_).dtype.kind != 'i' else float)
+                out_[others] = x_
+                return out_
             if mode == '2d':
-                a_ref, s_ref, chi_ref, near_lim = reference_2d(logm, k, logf, w, lo, hi, valid=valid, conf=err)
+                a_k, s_k, c_k, near_lim = reference_2d(logm[others], k, logf, w, lo, hi, valid=valid, conf=err)
+                a_ref, s_ref, chi_ref = spread(a_k, np.nan), spread(s_k, np.nan), spread(c_k, np.inf)
                 chi_all, jref = None, None
             else:
-                a_ref, jref, chi_ref, chi_all, near_lim = reference_3d(logm, k, logf, w, lo, hi, valid=valid, conf=err)
+                a_k, j_k, c_k, call_k, near_lim = reference_3d(logm[others], k, logf, w, lo, hi, valid=valid, conf=err)
+                a_ref, chi_ref, chi_all = spread(a_k, np.nan), spread(c_k, np.inf), spread(call_k, np.inf)
+                jref = np.zeros(n_m, int)
+                jref[others] = j_k
                 s_ref = np.log10(dist)[jref]
             o = np.argsort(chi_ref)
             margin = 1e-6 * (1 + chi_ref[o[0]]) + 1e-9
